@@ -78,4 +78,8 @@ Theorem C08_order_limit_needs_the_same_comparison_refuted :
     firstn n (isort (le_joined 1 (le_spec [(false, false)])) (join_left th ns (firstn n (isort (le_spec [(false, true)]) R)) S)) <>
     firstn n (isort (le_joined 1 (le_spec [(false, false)])) (join_left th ns R S)).
 Proof. exact order_limit_needs_the_same_comparison_refuted. Qed.
+(* an outer condition may not move below the LIMIT of a derived table / of a sub-select that cuts its rows *)
+Theorem C08_filter_below_limit_refuted :
+  exists (p : row -> bool) n (R : rel), firstn n (filter p R) <> filter p (firstn n R).
+Proof. exact filter_below_limit_refuted. Qed.
 Print Assumptions C08_order_limit_through_left_join.
